@@ -18,17 +18,17 @@ CHECKS = {
             "Trusts the harness's own RFC 9639 validator (cross-checked against claxon in C01); stream-level inputs limited to the atoms/coordinates of DESIGN 2.3.",
             "DESIGN.md 3 C02"),
     "C03": ("exploration",
-            "exhaustive dense product width x channels x sign-heavy atoms x lengths x block sizes x 6 deliveries (MemSource, integer / byte source without hint, hints rounded up / down to whole blocks, an empty fill before every block) x {ST, frame-level, MT 1..3 workers}; STREAMINFO compared with the harness's own LE serialisation hashed with an independent MD5",
+            "exhaustive dense product width x channels x sign-heavy atoms x lengths x block sizes x 6 deliveries (MemSource, integer / byte source without hint, hints rounded up / down to whole blocks, an empty fill before every block) x {ST, frame-level, MT 1..3 workers}; STREAMINFO compared with the harness's own LE serialisation hashed with an independent MD5; every stream serialised through three sinks (byte sink, word sink, minimal user sink) after a refused write of another stream at operation 0..13",
             "Every case of a dense product over the dimensions the MD5/count path depends on, each through six deliveries and five encoding modes; STREAMINFO must state the source format, the delivered count and the reference MD5, identically in all of them.",
             "MD5 from the md-5 crate over the harness's serialisation; the schedule quantifier for the hashing thread is covered by the loom harness of C05.",
             "DESIGN.md 3 C03"),
     "C05": ("model_checking",
-            "stateless model checking of the real par.rs under loom (DPOR, preemption bound 2/3, every scenario in its own process) + explicit-state exploration of a protocol model with stateright, bound to the code by replaying every loom execution's event log through the model (scenarios incl. short reads in the middle of the input, empty fills, shrunk hashing queue); breadth over inputs with real threads (U_1/U_2, long streams, the empty input and one-block inputs through six deliveries, environment overrides)",
+            "stateless model checking of the real par.rs under loom (DPOR, preemption bound 2/3, every scenario in its own process) + explicit-state exploration of a protocol model with stateright, bound to the code by replaying every loom execution's event log through the model (scenarios incl. short reads in the middle of the input, empty fills, shrunk hashing queue with integer and byte delivery; thorough: preemption bounds 4 and 5 for one worker and two blocks); breadth over inputs with real threads (U_1/U_2, long streams, the empty input and one-block inputs through six deliveries, environment overrides)",
             "Every interleaving (up to the preemption bound) of the feeding, encoding and hashing threads of the real implementation is executed for a grid of worker counts, environment overrides, frame counts and deliveries, and its bytes compared with the single-thread stream and the frame-level assembly; a protocol model explored exhaustively extends the schedule quantifier to more workers/frames, and is validated against the implementation trace by trace.",
             "loom models std::sync/std::thread; the bounded-channel stand-in models crossbeam-channel; loom limited to 3 workers; the crate's thread-local scratch is loom::thread_local storage in the loom build (per modelled thread, hook 82b277e), call-history dependence across calls is C10's subject; the real-thread breadth part samples one OS schedule per encode and is supplementary.",
             "DESIGN.md 3 C05"),
     "C06": ("model_checking",
-            "stateless model checking of the real par.rs under loom with scripted source faults (read error at every position, out-of-range sample in every block, pairs; also after a short last block and after a short read in the middle of the input) + explicit-state exploration of the protocol model under the same fault scripts (stateright), traces replayed through the model; real-thread part: sources that never end (the call must return within a watchdog)",
+            "stateless model checking of the real par.rs under loom with scripted source faults (read error at every position, out-of-range sample in every block, pairs; also after a short last block and after a short read in the middle of the input) + explicit-state exploration of the protocol model under the same fault scripts (stateright), traces replayed through the model; real-thread part: sources that never end (the call must return within a watchdog) and extreme worker counts, each probe in a child process (a dead or silent child is the observation)",
             "For every fault script and every interleaving up to the preemption bound the call must return the single-thread error kind, with no panic in any thread, no thread alive at return and no deadlock; the model adds deadlock freedom and termination for more workers/frames with unbounded preemptions.",
             "Same trusted base as C05; faults limited to the two kinds the statement names; a loom deadlock report aborts the child process and is classified from its panic journal.",
             "DESIGN.md 3 C06"),
@@ -54,7 +54,7 @@ CHECKS = {
             "DESIGN.md 3 C12"),
     "C14": ("exploration",
             "exhaustive enumeration of channels 1..=8 x width/bytes-per-sample x capacity x every fill length 0..=capacity (after a full fill) x value patterns; int path vs byte path compared at buffer, context, frame and stream level; plus every fill sequence of length <= 3 (thorough 4) on the (FrameBuf, Context) pair over 7 block lengths x every assignment of the two deliveries to the steps x at most one FrameBuf::resize, judged step by step against a reference model",
-            "Every fill length for every channel count and bytes-per-sample is delivered both as integers and as packed bytes; frame buffer contents, context digest/count/frame number, the verbatim-coded frame and whole streams (ST, MT, frame-level) must be identical, and equal to the input.",
+            "Every fill length for every channel count and bytes-per-sample is delivered both as integers and as packed bytes; frame buffer contents, context digest/count/frame number, the verbatim-coded frame and whole streams (ST, MT, frame-level; long streams also with 16 / 64 workers on real threads) must be identical, and equal to the input.",
             "FrameBuf contents are read through its Debug rendering (the only public view); 4 capacities; 3 value patterns.",
             "DESIGN.md 3 C14"),
     "C16": ("fault_enumeration",
@@ -68,7 +68,7 @@ CHECKS = {
             "Domain predicate written from the statement; every width other than 8/12/16/20/24 counts as unsupported; block sizes also reach the frame-level entry point through FrameBuf::resize; rate 0, fills that are not a multiple of the channel count and StreamInfo/FrameBuf channel disagreement are recorded only.",
             "DESIGN.md 3 C17"),
     "C18": ("exploration",
-            "exhaustive enumeration of every public component constructor over grids of boundary / inconsistent arguments (all combinations of at most two deviating arguments); post-conditions verify / write x3 / count_bits / parse-back identity",
+            "exhaustive enumeration of every public component constructor over grids of boundary / inconsistent arguments (all combinations of at most two deviating arguments); post-conditions verify / write x3 / count_bits / parse-back identity; sequences of constructed frames (every ordered pair of channel assignments) through one parser value and through parser::stream",
             "Each constructor call must return Err, or a component that verifies, serialises into three sinks to exactly count_bits() bits and parses back to a component that re-serialises and renders identically; no panic in constructor, verify, count, write or parser.",
             "Setters that return no Result (set_total_samples) are outside the statement and not probed beyond their field width; StreamInfo::new / Stream::new are probed both as returned and after their setters.",
             "DESIGN.md 3 C18"),
